@@ -5,7 +5,7 @@ LEVEL = 'proof'
 UNITS = s3.request_units('C16') + s3.prepare_units('C16') + s3.method_units('C16') + s3.list_units('C16')[:1] + s3.ctor_units('C16') + streams.units('C16')
 from specs import families as _families
 UNITS = _families.with_families('C16', UNITS)
-BOUNDED = [{'name': 'C16.wire', 'script': 'bounded/c16_wire.py', 'timeout': 600, 'bound': 'EXHAUSTIVE per-byte encoding (256 values, path and query); wire scenarios: 3 (thorough: 6) payload sizes around the 128000-byte stream chunk x 3-4 names x prefixes/tokens over printable and non-ASCII alphabets, every adapter operation, independent SigV4'}]
+BOUNDED = [{'name': 'C16.wire', 'script': 'bounded/c16_wire.py', 'timeout': 600, 'bound': 'EXHAUSTIVE per-byte encoding (256 values, path and query); wire scenarios: 3 (thorough: 6) payload sizes around the 128000-byte stream chunk x 3-4 names x prefixes/tokens over printable and non-ASCII alphabets, every adapter operation, independent SigV4; one scenario in which every distinct request is refused once (503/500) and the retried request is verified like any other'}]
 TRUSTED = [
     'vf symbolic executor (/verif/vf): encoding of the Python subset (DESIGN 2.2)',
     'z3 5.1 (API + z3-new CLI), cvc5 1.0.3 (strings)',
